@@ -131,6 +131,41 @@ fn run_seq(env: &mut Env, tree: &mut EntriesTree<'_, R<'_>>) -> gimli::Result<TR
     }
 }
 
+/// Every tree-API sequence of length 1..=maxlen from the unit root of an already built
+/// unit (used for units whose DW_AT_sibling placement is an arbitrary subset of entries:
+/// a pointer on a deeper entry while the skipped entry at the iterated level has none).
+pub fn check_root_sequences(ctx: &mut Ctx, b: &Built, um: &UnitModel, h: &UnitHeader<R<'_>>, ab: &Abbreviations, maxlen: u32) {
+    let nseq = mcx::space::seq_count(4, 1, maxlen);
+    let mut steps = 0u64;
+    for si in 0..nseq {
+        let acts: Vec<Act> = mcx::space::seq_decode(4, 1, maxlen, si).into_iter().map(|x| ACTS[x]).collect();
+        let mut env = Env { um, start: 0, acts: &acts, pos: 0, steps: 0, seen: vec![] };
+        let r = guard(|| -> gimli::Result<TR<bool>> {
+            let mut tree = h.entries_tree(ab, None)?;
+            run_seq(&mut env, &mut tree)
+        });
+        steps += env.steps;
+        let render = || format!("sequence {:?} (failed at action {}) from the root on {}", acts, env.pos, b.render());
+        match r {
+            Err(pn) => {
+                ctx.fail_panic("EntriesTree", &pn, render());
+                break;
+            }
+            Ok(Err(e)) => {
+                ctx.fail("EntriesTree", "ok-on-well-formed", "error-on-well-formed", format!("{:?} on {}", e, render()));
+                break;
+            }
+            Ok(Ok(Err(d))) => {
+                ctx.fail("EntriesTree", "iterator-yields-children-in-order", "wrong-tree", format!("{} on {}", d, render()));
+                break;
+            }
+            Ok(Ok(Ok(_))) => {}
+        }
+    }
+    ctx.eval(steps);
+    ctx.transitions += steps;
+}
+
 pub fn sub_tree_sequences(tier: Tier) -> Sub {
     let maxn = tier.pick(4, 5);
     let maxlen = tier.pick(6u32, 8u32);
